@@ -408,6 +408,8 @@ def _run(report):
     report.extra["inlined_closures"] = sorted(set().union(*[e.inlined for e in execs]))
     report.extra["callee_contracts_used"] = sorted(set().union(*[e.used_contracts for e in execs]))
     report.extra["library_models_used"] = sorted(set().union(*[e.used_models for e in execs]))
+    from ..contracts import audit
+    audit.run(report)
     report.trust("CPython 3.12 (subset of DESIGN 3.A)", "z3 5.1 / cvc5 1.4", "pytest.approx (assumed contract, audited)",
                  "contracts of assert_equivalent_dimension (C04) and Quantity(number, dimension=) (C05)")
     report.assume(*[f"{k}: {v}" for k, v in FE.ASSUMED.items()])
